@@ -100,7 +100,7 @@ Definition sem_cases (before after : func) : list N :=
   map (fun j => sem_case 100 before after (arg_vector (length (f_params before)) j)) (seq 0 6).
 
 (* ---- one tie case ---- *)
-Inductive pass := PDce | PCcp | PLvn | PCse | PPipe.      (* PPipe: optimize_function_for_rounds with only lvn switched on *)
+Inductive pass := PDce | PCcp | PLvn | PCse | PPipe | PPipeCse.      (* PPipe / PPipeCse: optimize_function_for_rounds with lvn / with cse and lvn switched on *)
 
 (* sup: the fresh names the real pass made, in the order in which it allocated them (used by PCse only) *)
 Definition model (p : pass) (sup : list name) (f : func) : option (func * fl) :=
@@ -109,7 +109,8 @@ Definition model (p : pass) (sup : list name) (f : func) : option (func * fl) :=
   | PCcp => ccp f
   | PLvn => Some (lvn f, fl0)
   | PCse => match cse sup f with Some f' => Some (f', fl0) | None => None end
-  | PPipe => pipeline true f
+  | PPipe => option_map (fun r => (fst (fst r), snd (fst r))) (pipeline true false [] f)
+  | PPipeCse => option_map (fun r => (fst (fst r), snd (fst r))) (pipeline true true sup f)
   end.
 
 (* [status; wf; Passes.dead_final_operands (ccp only); escape flag; sanity runs reproduced; sanity runs NOT reproduced;
